@@ -42,6 +42,12 @@ CHECKS['C14'] = (
     'Arguments fingerprinted before/after, calls repeated, seen-rule gate and nb-independence compared with the unrestricted call, unary '
     'results compared with the table; 6 (quick) / 24 (thorough) hash seeds per input block; held-on-observed.',
     'Hash seeds and inputs are sampled; in-domain = one feature system per grammar.', '§4 C14')
+CHECKS['C17'] = (
+    'before/after snapshot monitor around the real apply_category_filters vs an independent numpy.where mask; shipped dictionary and '
+    'inventories through the real read_params with the Category.parse contract on',
+    'Every token row, every dependency matrix and token identity/order compared bit for bit on random documents/dictionaries in both call '
+    'forms; rejection of unlisted categories driven explicitly; all 6902 shipped words in one document; held-on-observed.',
+    'Random documents are sampled; expected mask computed by the harness.', '§6')
 
 NOT_YET = {}
 
